@@ -62,6 +62,11 @@ fn scn_oneshot(o: &Opts, tr: &mut Tr) {
         oneshot_case(tr, &format!("tiny-l{}-zlib", lvl), "C01", &tiny[k2], lvl, true, "tiny");
     }
     // key levels x formats x families, small and threshold sizes
+    // deep Huffman codes (length limiting), parsed token by token by the acceptor
+    for (lvl, n) in [(6u8, 30_000usize), (2, 60_000), (9, 20_000), (1, 50_000)] {
+        let d = gen::data("fibo", n, &mut r);
+        oneshot_case(tr, &format!("fibo-{}-l{}", n, lvl), "C01", &d, lvl, n % 20_000 == 0, "fibo");
+    }
     let kinds = ["text", "rand", "alpha4", "zeros", "period7", "runs", "planted300", "mixed", "xx"];
     for (ki, kind) in kinds.iter().enumerate() {
         for (li, &lvl) in LEVELS_KEY.iter().enumerate() {
@@ -226,6 +231,14 @@ fn scn_configs(o: &Opts, tr: &mut Tr, prop: &str) {
                 let id = format!("flg-{}-l{}-{}", if zl { "z" } else { "r" }, lvl, STRATS[st].0);
                 stream_comp_case(tr, &id, prop, &data, &cfg, &big_out_sched(), &mut r, "mixed");
             }
+        }
+    }
+    if prop == "C10" {
+        // skewed symbol statistics: code lengths must be limited to 15 bits (checked by the acceptor)
+        for (k, (lvl, st, n)) in [(6u8, 0usize, 40_000usize), (1, 0, 70_000), (9, 2, 30_000), (2, 1, 50_000), (6, 3, 25_000)].iter().enumerate() {
+            let data = gen::data("fibo", *n, &mut r);
+            let cfg = Cfg { zlib: k % 2 == 0, level: *lvl, strat: *st, wbits: 15, api: "params" };
+            stream_comp_case(tr, &format!("fibo-{}-l{}-{}", n, lvl, STRATS[*st].0), prop, &data, &cfg, &big_out_sched(), &mut r, "fibo");
         }
     }
     if prop == "C10" || prop == "C02" {
@@ -464,6 +477,16 @@ fn scn_flushes(o: &Opts, tr: &mut Tr, prop: &str) {
                     stream_comp_case(tr, &format!("flx-{}-{}-{}-l{}-{}", STRATS[st].0, comp::FLUSHES[fi].0, kind, lvl, k), prop, &data, &cfg, &sch, &mut r, kind);
                 }
             }
+        }
+    }
+    // the very first call is a flush with no data at all (the zlib header must still come first, once)
+    for (k, fi) in [2usize, 3, 1, 7, 6, 5].iter().enumerate() {
+        for lvl in [0u8, 1, 6] {
+            let data = gen::data("text", 300 + k * 50, &mut r);
+            let cfg = Cfg { zlib: true, level: lvl, strat: 0, wbits: 15, api: "params" };
+            let sch = Sched { chunk_pat: "first0".into(), outs: vec![[1usize << 20, 3, 100000][k % 3]], flush_pct: 100,
+                              flush_set: vec![*fi], callback: false, max_points: 3 };
+            stream_comp_case(tr, &format!("fl0-{}-l{}", comp::FLUSHES[*fi].0, lvl), prop, &data, &cfg, &sch, &mut r, "text");
         }
     }
     // history > 32 KiB before a full flush
